@@ -416,3 +416,92 @@ def suite_c05(pid, tier, mk, extra, mal, extra_rs):
                           "at top level, in @( ), and inside blocks; plus a malformed stream (unbalanced groups, unterminated comments/strings, bad escapes, invalid UTF-8) compared with the model only.")
     finally:
         render_lib.SINK_RS = old
+
+# ---------------------------------------------------------------------------------------- C13
+C13_TYPES = [  # (declared type, rust value, how the body prints it, expected text)
+    ("u8", "7", "@{x}", "7"), ("usize", "12", "@{x}", "12"), ("&str", '"a<"', "@{x}", "a&lt;"), ("&'a str", '"q"', "@{x}", "q"), ("&'_ str", '"u"', "@{x}", "u"),
+    ("&[u32]", "&[1, 2]", "@{x}.len()", "2"), ("(u8, &str)", '(3, "t")', "@{x}.0@{x}.1", "3t"), ("(u8, &str,)", '(4, "v")', "@{x}.1", "v"),
+    ("Vec<u32>", "vec![5]", "@{x}.len()", "1"), ("Vec<u32,>", "vec![5, 6]", "@{x}.len()", "2"), ("Option<&str>", 'Some("o")', "@{x}.unwrap()", "o"),
+    ("impl ToHtml", '"h&"', "@{x}", "h&amp;"), ("&dyn Display", "&5u8", "@{x}", "5"), ("Box<dyn Display>", "Box::new(8u8)", "@{x}", "8"),
+    ("&[&str]", '&["r"]', "@{x}[0]", "r"), ("&(u8, u8)", "&(1, 9)", "@{x}.1", "9"), ("Map<u8, u8>", "Map::new()", "@{x}.len()", "0"),
+    ("ContentType", "ContentType", "@{x}", "CT"), ("Contents", "Contents", "@{x}", "CS"), ("MyContent", "MyContent", "@{x}", "MC"), ("&ContentType", "&ContentType", "@{x}", "CT"),
+    ("Vec<ContentType>", "vec![ContentType]", "@{x}.len()", "1"), ("Option<&'a ContentType>", "None", "@{x}.is_none()", "true"),
+    ("Content", '|o| { use std::io::Write; o.write_all(b"<blk>") }', "@:{x}()", "<blk>"),
+]
+C13_NAMES = ["a", "bb", "_ructe_out_x", "W_", "io", "content", "Content_", "x1", "self_", "out", "w", "Z9"]
+def run_c13(pid, tier):
+    rng = random.Random(int(os.environ.get("VERIF_SEED", "1")) * 104729 + 13)
+    n = 250 if tier == "quick" else 2500
+    extra = []
+    user_rs = ("use std::fmt;\npub struct ContentType; pub struct Contents; pub struct MyContent;\n"
+               "impl fmt::Display for ContentType { fn fmt(&self, f: &mut fmt::Formatter) -> fmt::Result { f.write_str(\"CT\") } }\n"
+               "impl fmt::Display for Contents { fn fmt(&self, f: &mut fmt::Formatter) -> fmt::Result { f.write_str(\"CS\") } }\n"
+               "impl fmt::Display for MyContent { fn fmt(&self, f: &mut fmt::Formatter) -> fmt::Result { f.write_str(\"MC\") } }\n")
+    USES = ["std::fmt::Display", "std::collections::HashMap as Map", "crate::{ContentType, Contents, MyContent}", "std::cmp::*", "std::fmt::{self, Write as FmtWrite}"]
+    cases = []
+    for i in range(n):
+        k = rng.randint(0, 8)
+        names = rng.sample(C13_NAMES, k)
+        params = []; body = "|"; args = []; exp = "|"
+        need_a = False
+        for nm in names:
+            ty, val, pr, ex = rng.choice(C13_TYPES)
+            if "'a" in ty: need_a = True
+            colon = rng.choice([": ", ": ", ":", " : ", " :", ":  ", ":\n  "])
+            params.append(nm + colon + ty)
+            body += pr.replace("{x}", nm) + ","
+            exp += ex + ","
+            args.append(val)
+        sep = rng.choice([", ", ",", ",\n    ", ", "])
+        uses = list(USES[:3]) + rng.sample(USES[3:], rng.randint(0, 2))
+        rng.shuffle(uses)
+        lifetimes = rng.choice(["<'a>", "<'a, 'b>", "<'a,'b>", "< 'a>"]) if need_a or rng.random() < 0.2 else ""
+        open_ws = rng.choice(["", " ", "\n  "]); close_ws = rng.choice(["", " ", "\n"])
+        src = "".join("@use %s;\n" % u for u in uses) + "@" + lifetimes + "(" + open_ws + sep.join(params) + close_ws + ")\n" + body
+        cases.append(dict(canon=src.encode(), perts=[], items=None, expect=[exp.encode()], args=", ".join(args), uses=uses, params=params, lifetimes=lifetimes))
+    # run through a local variant of the suite: one argument set per template (its own values)
+    chk = Check(pid, tier)
+    info = ensure_all()
+    proof = proof_step(pid, thorough=(tier == "thorough"))
+    named = [("d%d_html" % i, c["canon"]) for i, c in enumerate(cases)]
+    impl, model = compile_pairs(named)
+    disagree = []; oracle_fail = []
+    ok_cases = []
+    for i, (c, a, m) in enumerate(zip(cases, impl, model)):
+        chk.count(c["canon"], len(c["params"]) > 0)
+        if a != m: disagree.append((c["canon"], a, m))
+        st, code = decode_outcome(a)
+        if st != "OK":
+            oracle_fail.append((c["canon"], "a well-formed declaration is not accepted (%s): %s" % (st, code.decode("utf8", "replace")[:300]), None)); continue
+        # impl-side statement of the property on the generated text
+        txt = code.decode("utf8", "replace")
+        for u in c["uses"]:
+            if ("use %s;\n" % u) not in txt:
+                oracle_fail.append((c["canon"], "the line `@use %s;` did not become the identical use item" % u, dict(code=txt[:800]))); break
+        ok_cases.append((i, c))
+    B = 125
+    for s0 in range(0, len(ok_cases), B):
+        batch = ok_cases[s0:s0 + B]
+        files = {"t/d%d.rs.html" % i: c["canon"] for i, c in batch}
+        calls = [("templates::d%d_html(&mut sink%s)" % (i, (", " + c["args"]) if c["args"] else ""), "-") for i, c in batch]
+        import render_lib
+        old = render_lib.SINK_RS; render_lib.SINK_RS = old + user_rs + "use std::fmt::Display; use std::collections::HashMap as Map;\n"
+        try: rb = render_lib.render_batch(files, calls)
+        finally: render_lib.SINK_RS = old
+        if not rb["ok"]:
+            if rb.get("rustc_failed"):
+                bad = rustc_blame(rb["error"], ["d%d_html" % i for i, c in batch])
+                for i, c in [x for x in batch if ("d%d_html" % x[0]) in bad][:3] or batch[:1]:
+                    oracle_fail.append((c["canon"], "calling the generated function with values of exactly the declared types in declared order does not type-check", dict(rustc=rb["error"][:2500], call=c["args"])))
+            else: oracle_fail.append((batch[0][1]["canon"], "render batch failed: " + rb["error"][:400], None))
+            continue
+        for (i, c), r in zip(batch, rb["results"]):
+            chk.cov["renderings"] = chk.cov.get("renderings", 0) + 1
+            if r is None or r[1] != "ok" or r[0] != c["expect"][0]:
+                oracle_fail.append((c["canon"], "parameters do not reach the body in declared order / as declared", dict(got=(r[0].decode("utf8", "replace") if r else None), want=c["expect"][0].decode())))
+    for c in cases[:3]: chk.sample(dict(template=c["canon"].decode(), call_args=c["args"]))
+    chk.notes["disagreements_model_vs_impl"] = len(disagree); chk.notes["oracle_failures"] = len(oracle_fail)
+    chk.cov["rule"] = ("parameter lists of 0..8 parameters over %d declared types (references, named and anonymous lifetimes, slices, tuples and generics with trailing commas, impl/dyn, user types Content / ContentType / Contents / MyContent / "
+                       "&ContentType / Vec<ContentType>) with parameter names resembling internals (%s), colon spacing variants, lifetime lists, 3-5 @use lines incl. renames, globs and brace groups; "
+                       "generated text compared with the model; each function called from a rustc-compiled program with values of exactly the declared types. non-trivial = at least one parameter") % (len(C13_TYPES), ", ".join(C13_NAMES[:5]))
+    return conclude(chk, proof, info, disagree, oracle_fail, len(cases))
